@@ -67,7 +67,8 @@ func streamC11(env *runEnv) {
 	defer srv.close()
 	points := []string{"start", "handshake", "tunnel", "auth", "channel", "data-c2h", "data-h2c", "data-both"}
 	causes := []string{"close-channel", "out-of-order", "unframeable", "tcp-close", "tcp-reset", "close-in-only", "close-out-only",
-		"repeat-channel-create", "close-in-before-first-byte", "unframeable-while-client-not-reading"}
+		"repeat-channel-create", "close-in-before-first-byte", "unframeable-while-client-not-reading",
+		"out-gone-before-channel-create"}
 	reps := 1
 	if env.thorough() {
 		reps = 10
@@ -88,6 +89,9 @@ func streamC11(env *runEnv) {
 						continue
 					}
 					if cause == "unframeable-while-client-not-reading" && point != "data-h2c" {
+						continue
+					}
+					if cause == "out-gone-before-channel-create" && !(transport == "legacy" && point == "auth") {
 						continue
 					}
 					n++
@@ -257,6 +261,14 @@ func runC11Cell(srv *l2server, transport, point, cause, id string) string {
 		// the client starts reading only after the release has been measured (below)
 	case "repeat-channel-create":
 		c.send(packet(ptChannelCreate, channelCreateBody(host, port)))
+	case "out-gone-before-channel-create":
+		// the outbound connection is reset, then the channel is requested on the inbound one: the gateway
+		// connects to the host, cannot report it, and must let the host go again when the client leaves
+		reset(c.(*legacyConn).out)
+		time.Sleep(50 * time.Millisecond)
+		c.send(packet(ptChannelCreate, channelCreateBody(host, port)))
+		time.Sleep(300 * time.Millisecond)
+		c.(*legacyConn).in.Close()
 	case "tcp-close":
 		c.close()
 	case "tcp-reset":
